@@ -15,6 +15,7 @@
 //@ prelude
 #include <limits.h>
 #include "gkf_enums.h"
+#define GKC_REM_OPAQUE 1 /* CBMC sees r |-> GKC_ROWS_REM(d,b,r) as an opaque table, see gkc_spec.h */
 #include "gkc_spec.h"
 typedef void *XML_Parser;
 typedef const char *GKC_string;
@@ -66,6 +67,8 @@ static int gv_isspace(int c)
 }
 
 /* ---- ghost state of one finish_cov call ------------------------------------------------------------------------ */
+struct gkc_rows_tab gv_rows_rem; /* opaque table of GKC_ROWS_REM(gv_tab_d, gv_tab_b, .), see gkc_spec.h                */
+int gv_tab_d, gv_tab_b;
 int gv_total;                 /* number of elements the announced band holds                                         */
 int gv_words;                 /* white-space separated words found in cov_mat_data so far                            */
 int gv_writes;                /* elements stored into the matrix so far                                              */
@@ -208,7 +211,7 @@ GV_INST(OFF(atts) + PSZ < 2 * PSZ * gv_natts, atts[1] != NULL);
 //@ contract GKC_finish_cov
 __CPROVER_requires(GKF_SELF_OK(self) && __CPROVER_rw_ok(cov_mat, sizeof(struct GKC_CovMat)))
 __CPROVER_requires(self->errCode == 0 && self->state != state_error && GKF_LINE_OK)
-__CPROVER_requires(GKC_DIMS_OK(self) && self->idim <= GKC_MAXDIM)
+__CPROVER_requires(GKC_DIMS_OK(self) && self->idim <= GKC_MAXDIM && GKC_TAB_FOR(self->idim, self->iband))
 __CPROVER_requires(GKC_STR_OK(self))
 __CPROVER_requires(gv_words == 0 && gv_writes == 0 && gv_td_failed == 0 && gv_scan_done == 0 &&
                    gv_exp_row == 1 && gv_exp_col == 1)
@@ -249,7 +252,7 @@ __CPROVER_assigns(i, row, col, elements, gv_words, gv_writes, gv_td_failed, gv_e
 __CPROVER_loop_invariant(SAME(i, self->cov_mat_data_b) && OFF(self->cov_mat_data_b) <= OFF(i) && OFF(i) <= OFF(self->cov_mat_data_e) &&
                          ((GKC_INBAND(self->idim, self->iband, row, col) && elements == GKC_REM(self->idim, self->iband, row, col)) ||
                           (row == self->idim + 1 && col == row && elements == 0)) &&
-                         0 <= elements && 0 <= gv_writes && gv_writes + elements == gv_total &&
+                         0 <= elements && elements <= gv_total && gv_writes == gv_total - elements &&
                          gv_exp_row == row && gv_exp_col == col && gv_words == gv_writes && gv_td_failed == 0 &&
                          self->errCode == 0 && self->state == gv_state0 && self->errLineNumber == gv_errline0)
 __CPROVER_decreases(OFF(self->cov_mat_data_e) - OFF(i))
@@ -330,6 +333,8 @@ void h_finish_cov(void)
 #ifdef GV_DIM_MAX
   __CPROVER_assume(P.idim <= GV_DIM_MAX);
 #endif
+  struct gkc_rows_tab anyrows;
+  gv_rows_rem = anyrows; gv_tab_d = P.idim; gv_tab_b = P.iband;   /* the opaque table of THIS matrix */
   char *text = malloc(n);                  /* the collected character data: any bytes, any length (0: empty object) */
   __CPROVER_assume(text != NULL);
   P.cov_mat_data_b = text;
